@@ -18,6 +18,12 @@ func main() {
 		os.Exit(2)
 	}
 	want := os.Args[1]
+	if want == "-layout" {
+		for _, w := range os.Args[2:] {
+			layoutDump(c, w)
+		}
+		return
+	}
 	sx := core.NewSymx()
 	for _, fn := range c.AllFuncs() {
 		if !strings.Contains(core.ShortFn(fn), want) {
